@@ -8,6 +8,7 @@ X   exits in dominance order: misaligned buffer -> Err(WrongAlignment); no match
     the buffer -> Err; else Ok(Some((buffer[i..][..len], i as u32)))
 """
 from .. import an
+from .. import select as SEL
 from .. import chain as CH
 from .. import guard as G
 from .. import spec as S
@@ -96,57 +97,68 @@ def run(ctx):
     ctx.check(len(ex) == 6, "X", "exits", "find_header has exactly six exits", A.site(), how=str(len(ex)), why=str(ex))
     if len(ex) == 6 and pos is not None:
         IDX = ("fld", ("dc", pos, 1), 0)
-        e0, e1, e2, e3, e4, e5 = ex[0], ex[1], ex[2], None, None, None
+        e0, e1, e2 = ex[0], ex[1], ex[2]
         rest = ex[3:]
         g0 = e0.kind == "Err" and e0.variant == "Memory::WrongAlignment" and [N(f) for f in e0.own] == [("cmp", "Ne", ("align_offset", ("asptr", buf), ("c", 8)), ("c", 0))]
         ctx.check(g0, "X", "0:buffer-misaligned", "a buffer that is not 8-aligned is rejected first with Err(WrongAlignment)", A.site(e0.bb),
                   how=str(e0), why=str(e0))
-        g1 = e1.kind == "Ok" and e1.variant == "None" and [N(f) for f in e1.own] == [("cmp", "Eq", ("discr", pos), ("c", 0))] and CH.precedes(e0, e1)
+        g1 = e1.kind == "Ok" and e1.variant == "None" and CH.own_is_variant(e1, pos, 0) and CH.precedes(e0, e1)
         ctx.check(g1, "X", "1:none", "Ok(None) is returned exactly when position() finds no window equal to the magic", A.site(e1.bb),
                   how="own guard discr(position(..)) == None", why=str(e1))
-        want2 = ("cmp", "Ne", ("bin", "Rem", IDX, ("c", 8)), ("c", 0))
-        g2 = e2.kind == "Err" and e2.variant == "Memory::WrongAlignment" and [N(f) for f in e2.own] == [want2] and CH.precedes(e1, e2)
+        # i % 8 != 0, also spelled i & 7 != 0
+        want2 = [("cmp", "Ne", ("bin", "Rem", IDX, ("c", 8)), ("c", 0)), ("cmp", "Ne", ("bin", "BitAnd", IDX, ("c", 7)), ("c", 0))]
+        g2 = e2.kind == "Err" and e2.variant == "Memory::WrongAlignment" and len(e2.own) == 1 and N(e2.own[0]) in want2 and CH.precedes(e1, e2)
         ctx.check(g2, "X", "2:index-misaligned", "a first occurrence at i with i % 8 != 0 yields Err(WrongAlignment)", A.site(e2.bb),
                   how="own guard i % 8 != 0 with i the payload of position()", why=str(e2)[:400])
-        # FROM = buffer.get(i..).unwrap_or(&[])
-        errs = [e for e in rest if N(e.val)[0] == "try_err"]
+        errs = [e for e in rest if e.kind == "Err"]
         oks = [e for e in rest if e.kind == "Ok"]
         g3 = g4 = g5 = False
-        FROM = LEN = None
+        empty = lambda t: t[0] == "unsize" and t[3] == "&[u8; 0]"
+
+        def is_from(t):
+            """the bytes of the buffer from index i on: buffer.get(i..).unwrap_or(&[]) in call or spliced form, or &buffer[i..]
+            (identical because position() returned i < len)"""
+            t = SEL.canon_place(t)
+            gf = ("call", "core::slice::<impl [u8]>::get::<core::ops::range::RangeFrom<usize>>", (buf, ("aggr", ("adt", "core::ops::range::RangeFrom", "RangeFrom", ("start",)), (IDX,))))
+            if t[0] == "ite" and N(t[1]) == ("cmp", "Eq", ("discr", gf), ("c", 1)) and SEL.canon_place(N(t[2])) == CH.payload_of(gf, 1) and empty(N(t[3])):
+                return True
+            uo = call(t, "core::option::Option::unwrap_or")
+            if uo is not None and uo[0] == gf and empty(uo[1]):
+                return True
+            ix = call(t, "core::slice::index::index") or (t[2] if t[0] == "call" and "Index<core::ops::range::RangeFrom<usize>>" in str(t[1]) else None)
+            if ix is not None and ix[0] == buf and range_(ix[1], "RangeFrom") == (IDX,):
+                return True
+            return False
+        FROM = None
+        G812 = GLEN = None
         if len(errs) == 2 and len(oks) == 1:
-            v3 = N(errs[0].val)[1]
-            a = call(v3, "core::option::Option::ok_or")
-            if a is not None:
-                gt = call(a[0], "core::slice::get")
-                if gt is not None and range_(gt[1], "Range") == (("c", 8), ("c", 12)):
-                    FROM = gt[0]
-                    uo = call(FROM, "core::option::Option::unwrap_or")
-                    fg = call(uo[0], "core::slice::get") if uo else None
-                    empty = uo is not None and uo[1][0] == "unsize" and uo[1][3] == "&[u8; 0]"
-                    g3 = (fg is not None and fg[0] == buf and range_(fg[1], "RangeFrom") == (IDX,) and empty
-                          and err_of(a[1]) is not None and err_of(a[1]).startswith("Memory::"))
-            LENB = ("try_ok", v3)
-            LEN = ("unwrap", ("call", "core::convert::num::ptr_try_from_impls::<impl core::convert::TryFrom<u32> for usize>::try_from",
-                              (("from_bytes", "from_le_bytes", ("unwrap", ("call", "core::array::<impl core::convert::TryFrom<&[u8]> for [u8; 4]>::try_from", (LENB,))), "u32"),)))
-            v4 = N(errs[1].val)[1]
-            a4 = call(v4, "core::option::Option::ok_or")
-            if a4 is not None and FROM is not None:
-                gt = call(a4[0], "core::slice::get")
-                if gt is not None and gt[0] == FROM:
-                    r = range_(gt[1], "RangeTo")
-                    lenterm = r[0] if r else None
-                    alt = ("cast", "IntToInt", LEN[1][2][0], "usize") if lenterm is not None else None
-                    g4 = lenterm is not None and (lenterm == LEN or lenterm == alt) and err_of(a4[1]) is not None and err_of(a4[1]).startswith("Memory::")
+            f3 = N(errs[0].own[0]) if len(errs[0].own) == 1 else None
+            if f3 is not None and f3[0] == "cmp" and f3[2][0] == "discr":
+                G812 = f3[2][1]
+                a = call(G812, "core::slice::get")
+                if a is not None and range_(a[1], "Range") == (("c", 8), ("c", 12)) and is_from(a[0]):
+                    FROM = a[0]
+                    g3 = CH.own_is_variant(errs[0], G812, 0) and (errs[0].variant or "").startswith("Memory::") and CH.precedes(e2, errs[0])
+            f4 = N(errs[1].own[0]) if len(errs[1].own) == 1 else None
+            if f4 is not None and f4[0] == "cmp" and f4[2][0] == "discr" and FROM is not None:
+                GLEN = f4[2][1]
+                a = call(GLEN, "core::slice::get")
+                LENB = CH.payload_of(G812, 1)
+                le = ("from_bytes", "from_le_bytes", ("unwrap", ("call", "core::array::<impl core::convert::TryFrom<&[u8]> for [u8; 4]>::try_from", (LENB,))), "u32")
+                lens = [("unwrap", ("call", "core::convert::num::ptr_try_from_impls::<impl core::convert::TryFrom<u32> for usize>::try_from", (le,))),
+                        ("cast", "IntToInt", le, "usize")]
+                if a is not None and a[0] == FROM:
+                    r = range_(a[1], "RangeTo")
+                    g4 = r is not None and r[0] in lens and CH.own_is_variant(errs[1], GLEN, 0) and (errs[1].variant or "").startswith("Memory::") and CH.precedes(errs[0], errs[1])
             pl = N(oks[0].payload) if oks[0].payload is not None else None
-            if pl is not None and pl[0] == "aggr" and pl[1][1].endswith("Option") and pl[1][2] == "Some":
+            if pl is not None and pl[0] == "aggr" and pl[1][1].endswith("Option") and pl[1][2] == "Some" and GLEN is not None:
                 tup = pl[2][0]
-                g5 = tup[0] == "aggr" and tup[1] == ("tuple",) and tup[2][0] == ("try_ok", v4) and tup[2][1] == ("cast", "IntToInt", IDX, "u32")
-            prec = CH.precedes(e2, errs[0]) and CH.precedes(errs[0], errs[1]) and CH.precedes(errs[1], oks[0])
-            g5 = g5 and prec
+                g5 = tup[0] == "aggr" and tup[1] == ("tuple",) and tup[2][0] == CH.payload_of(GLEN, 1) and tup[2][1] == ("cast", "IntToInt", IDX, "u32") and \
+                    CH.own_is_variant(oks[0], GLEN, 1) and CH.precedes(errs[1], oks[0])
         ctx.check(g3, "X", "3:length-field", "the header length is read from buffer[i..].get(8..12) (bytes i+8..i+12 of the buffer itself); if unavailable -> Err",
-                  A.site(), how="buffer.get(i..).unwrap_or(&[]).get(8..12)", why=str([G.show(e.val)[:300] for e in errs[:1]]))
+                  A.site(), how="buffer.get(i..).unwrap_or(&[]).get(8..12)", why=str([G.show(N(e.own[0]))[:300] for e in errs[:1] if e.own]))
         ctx.check(g4, "X", "4:truncated", "the header slice is buffer[i..].get(..len) with len the little-endian u32 just read; if it does not fit -> Err",
-                  A.site(), how="from_magic.get(..u32::from_le_bytes(..) as usize)", why=str([G.show(e.val)[:300] for e in errs[1:]]))
+                  A.site(), how="from_magic.get(..u32::from_le_bytes(..) as usize)", why=str([G.show(N(e.own[0]))[:300] for e in errs[1:] if e.own]))
         ctx.check(g5, "X", "5:some", "success returns (that slice, i as u32), after all error exits", A.site(),
                   how="Some((header, i as u32))", why=str([G.show(e.val)[:300] for e in oks]))
     ctx.note("`first occurrence` and the exact iff rest on the std contracts of slice::windows (all length-4 sub-slices in order) and "
